@@ -132,7 +132,7 @@ def run(c):
                 shortest_stale = (p, live, segs, ids)
         trees += build_trees(progs, live, segs, ids, c.seed, tag)
         if r.coverage:
-            coverage[cfgname] = {a: v for a, v in r.coverage.items() if a.startswith("MC") or a in ("Init",)}
+            coverage[cfgname] = {a: v for a, v in r.coverage.items() if a.startswith("MC") or a in ("Init", "Fetch")}
             dead = [a for a, v in coverage[cfgname].items() if v[1] == 0]
             if dead:
                 raise vlib.InfraError("actions never taken in %s: %s" % (cfgname, dead))
